@@ -405,6 +405,50 @@ class TracingSink:
         return []
 
 
+class FailingSink(TracingSink):
+    """TracingSink whose write raises for the messages selected by `fails(text)` (after the begin point)"""
+
+    def __init__(self, tag, fails):
+        super().__init__(tag)
+        self.fails = fails
+        self.failed = []
+
+    def write(self, message):
+        text = _ANSI.sub("", str(message)).strip()
+        if not self.fails(text):
+            return super().write(message)
+        s = S()
+        me = s.me() if s is not None else None
+        self.busy = me
+        if s is not None:
+            s.point("wbegin", self.tag, text)
+        self.busy = None
+        self.failed.append(text)
+        raise ValueError("sink %s refuses %r" % (self.tag, text))
+
+
+class TracingStderr:
+    """stands in for sys.stderr during a scheduled run: loguru's error reports are written here; the first and the
+    last line of every report are scheduling points, and while a write is in progress `busy` names the writer"""
+
+    def __init__(self):
+        self.busy = None
+        self.chunks = []
+
+    def write(self, text):
+        s = S()
+        me = s.me() if s is not None else None
+        if s is not None and me is not None and text.startswith("--- "):
+            self.busy = me
+            s.point("ewrite", "stderr", text.strip()[:40])
+            self.busy = None
+        self.chunks.append(text)
+        return len(text)
+
+    def flush(self):
+        pass
+
+
 def make_logger(core=None):
     core = core or TCore()
     lk = object.__getattribute__(core, "lock")
